@@ -108,6 +108,9 @@ CONTAINER_MUT_METHODS = {"append", "extend", "insert", "pop", "popitem", "remove
 INPLACE_DUNDER = re.compile(r"__i(add|sub|mul|truediv|floordiv|mod|pow|and|or|xor|matmul|lshift|rshift|concat)__")
 OPERATOR_INPLACE = {"iadd", "isub", "imul", "itruediv", "ifloordiv", "imod", "ipow", "iand", "ior", "ixor",
                     "imatmul", "ilshift", "irshift", "iconcat", "setitem", "delitem"}
+# f(x, copy=False) only aliases x (no write); every other callee given copy=<not True> may write into x
+COPY_FLAG_ALIAS_ONLY = {"array", "asarray", "asanyarray", "astype", "ascontiguousarray", "asfortranarray", "reshape",
+                        "view", "to", "type", "require", "copy", "deepcopy", "Series", "DataFrame"}
 NP_INPLACE_FUNCS = {"put", "copyto", "place", "putmask", "fill_diagonal", "put_along_axis", "shuffle"}
 NP_UFUNC_INPLACE_ATTRS = {"at"}          # np.add.at(x, …)
 
@@ -339,6 +342,21 @@ class FuncScan:
         for kw in e.keywords:
             if kw.arg == "out" and not (isinstance(kw.value, ast.Constant) and kw.value.value is None):
                 self.site(e, "outKw", kw.value, env)
+            # in-place flags of library calls: f(x, …, copy=False) writes into x unless f is known to merely
+            # alias its argument (np.array / asarray / astype …); f(…, inplace=True) always writes.
+            flag_false = isinstance(kw.value, ast.Constant) and kw.value.value is False
+            flag_true_const = isinstance(kw.value, ast.Constant) and kw.value.value is True
+            fname = f.attr if isinstance(f, ast.Attribute) else getattr(f, "id", "")
+            if kw.arg == "copy" and not flag_true_const and fname not in COPY_FLAG_ALIAS_ONLY:
+                tgt = e.args[0] if e.args else (f.value if isinstance(f, ast.Attribute) else None)
+                if tgt is not None:
+                    self.site(e, "npInplace", tgt, env)
+            if kw.arg == "inplace" and not flag_false:
+                tgt = f.value if isinstance(f, ast.Attribute) and not (
+                    isinstance(f.value, ast.Name) and f.value.id in MODULE_ALIASES and f.value.id not in env) \
+                    else (e.args[0] if e.args else None)
+                if tgt is not None:
+                    self.site(e, "npInplace", tgt, env)
         if isinstance(f, ast.Name):
             name = f.id
             if name in ("setattr", "delattr") and e.args:
